@@ -1,12 +1,527 @@
-//! C14 - not built yet.
-use crate::run::Ctx;
-use serde_json::Value;
+//! C14 - ZonedDateTime arithmetic is wall-clock for dates, exact for times.
 
-pub fn run(_ctx: &mut Ctx) {
-    eprintln!("property C14 has no check yet");
-    std::process::exit(2);
+use crate::chk;
+use crate::conv::*;
+use crate::gen;
+use crate::props::c13::{syn_zone, shaped_zones, ZoneKind};
+use crate::refm::civil::*;
+use crate::refm::dateadd::*;
+use crate::refm::dur::*;
+use crate::refm::exact::{ratio_to_f64, ulp_distance};
+use crate::refm::fmt;
+use crate::refm::relround::to_dur;
+use crate::refm::round::{round_int, Mode};
+use crate::refm::tz::{Disamb, Zone, S};
+use crate::refm::zoned::*;
+use crate::run::*;
+use proptest::prelude::*;
+use serde::{Deserialize, Serialize};
+use serde_json::Value;
+use temporal_rs::error::ErrorKind;
+use temporal_rs::options::{Disambiguation, OffsetDisambiguation, RelativeTo, Unit};
+use temporal_rs::ZonedDateTime;
+
+const DAY: i128 = NS_PER_DAY;
+
+#[derive(Serialize, Deserialize, Debug, Clone, Copy, PartialEq, Eq)]
+pub enum Op {
+    Add,
+    Subtract,
+    Until,
+    Since,
+    StartOfDay,
+    HoursInDay,
+    WithPlainTime,
+    DateOnlyString,
+    DurRound,
+    DurTotal,
+    DurCompare,
 }
 
-pub fn replay(_ctx: &mut Ctx, _sub: &str, _case: &Value) -> bool {
-    false
+#[derive(Serialize, Deserialize, Debug, Clone, Copy, PartialEq, Eq)]
+pub enum LargestOpt {
+    Absent,
+    Auto,
+    Unit(U),
+}
+
+#[derive(Serialize, Deserialize, Debug, Clone)]
+pub struct Case {
+    pub zone: ZoneKind,
+    pub op: Op,
+    pub t1: i128,
+    pub t2: i128,
+    pub dur: Dur,
+    pub dur2: Dur,
+    pub largest: LargestOpt,
+    pub smallest: Option<U>,
+    pub inc: u32,
+    pub mode: Mode,
+    pub reject: bool,
+    /// time of day for WithPlainTime
+    pub tod: i128,
+}
+pub struct Sub;
+
+fn kind_of(e: RErr) -> ErrorKind {
+    match e {
+        RErr::Range => ErrorKind::Range,
+        RErr::Type => ErrorKind::Type,
+    }
+}
+
+/// GetStartOfDay as specified: earliest instant reading midnight, else the instant at which the
+/// gap that skips midnight ends
+fn spec_start_of_day(z: &Zone, day: i64) -> Option<i128> {
+    let midnight = day as i128 * DAY;
+    let c = z.instants(midnight);
+    if let Some(f) = c.first() {
+        return Some(*f);
+    }
+    // transition whose skipped wall interval contains midnight
+    for i in 0..z.trans.len() {
+        let before = z.offset_of_interval(i as isize - 1) as i128 * S;
+        let after = z.trans[i].1 as i128 * S;
+        let t = z.trans[i].0 as i128 * S;
+        if midnight >= t + before && midnight < t + after {
+            return Some(t);
+        }
+    }
+    None
+}
+
+fn near_transition(z: &Zone, t: i128, within: i128) -> bool {
+    z.trans.iter().any(|(x, _)| ((*x as i128) * S - t).abs() <= within)
+}
+fn straddles(z: &Zone, a: i128, b: i128) -> bool {
+    let (lo, hi) = (a.min(b), a.max(b));
+    z.trans.iter().any(|(x, _)| {
+        let t = (*x as i128) * S;
+        t > lo && t <= hi
+    })
+}
+
+impl SubCheck for Sub {
+    type Case = Case;
+    fn name(&self) -> &'static str {
+        "zoned"
+    }
+    fn eval(&self, c: &Case) -> Outcome {
+        let z = c.zone.zone();
+        let tz = c.zone.timezone();
+        let prov = c.zone.provider();
+        let mut o = Outcome::pass();
+        let zdt = match ZonedDateTime::try_new(c.t1, iso(), tz.clone()) {
+            Ok(v) => v,
+            Err(e) => return o.fail("C14/construct", "Ok", err_str(&e)),
+        };
+        let w1 = wall_dt(&z, c.t1);
+        if !w1.in_range() {
+            return o.class("wall-out-of-range");
+        }
+        let day_len = day_bounds(&z, c.t1).map(|x| x.1);
+        let odd_day = day_len.map(|l| l != DAY).unwrap_or(true);
+        match c.op {
+            Op::Add | Op::Subtract => {
+                let eff = if c.op == Op::Add { c.dur } else { c.dur.negated() };
+                let ov = if c.reject { Overflow::Reject } else { Overflow::Constrain };
+                let want = zoned_add(&z, c.t1, &eff, ov);
+                let strad = want.map(|t| straddles(&z, c.t1, t)).unwrap_or(false);
+                o = o.class("add").nontrivial(strad || odd_day);
+                if strad {
+                    o = o.class("straddles-transition");
+                }
+                if eff.f[..4].iter().any(|v| *v != 0) && eff.time_ns() != 0 {
+                    o = o.class("date+time-units");
+                }
+                let d = match duration_from_dur(&c.dur) {
+                    Ok(d) => d,
+                    Err(e) => return o.fail("C14/add/duration-construct", "valid", err_str(&e)),
+                };
+                let got = if c.op == Op::Add { zdt.add_with_provider(&d, Some(overflow(ov)), &prov) } else { zdt.subtract_with_provider(&d, Some(overflow(ov)), &prov) };
+                match (want, got) {
+                    (Ok(w), Ok(g)) => chk!(o, g.epoch_nanoseconds().as_i128() == w, "C14/add/mismatch", w, g.epoch_nanoseconds().as_i128()),
+                    (Err(we), Err(e)) => chk!(o, e.kind() == kind_of(we), "C14/add/error-kind", rerr_name(we), err_str(&e)),
+                    (Ok(w), Err(e)) => o = o.fail("C14/add/unexpected-error", w.to_string(), err_str(&e)),
+                    (Err(_), Ok(g)) => o = o.fail("C14/add/accepted", "RangeError", g.epoch_nanoseconds().as_i128().to_string()),
+                }
+            }
+            Op::Until | Op::Since => {
+                let since = c.op == Op::Since;
+                let other = match ZonedDateTime::try_new(c.t2, iso(), tz.clone()) {
+                    Ok(v) => v,
+                    Err(e) => return o.fail("C14/construct", "Ok", err_str(&e)),
+                };
+                if !wall_dt(&z, c.t2).in_range() {
+                    return o.class("wall-out-of-range");
+                }
+                let smallest = c.smallest.unwrap_or(U::Nanosecond);
+                let largest = match c.largest {
+                    LargestOpt::Unit(u) => u,
+                    _ => U::Hour.larger_of(smallest),
+                };
+                let m = if since { c.mode.negated() } else { c.mode };
+                let strad = straddles(&z, c.t1, c.t2);
+                let w2 = wall_dt(&z, c.t2);
+                let reversed_tod = (c.t2 - c.t1).signum() == -((w2.ns - w1.ns).signum()) && c.t1 != c.t2;
+                o = o.class(if largest.is_date() { "diff:date-largest" } else { "diff:time-largest" }).nontrivial(strad || odd_day || (c.t2 < c.t1 && reversed_tod));
+                if strad {
+                    o = o.class("straddles-transition");
+                }
+                if reversed_tod {
+                    o = o.class("time-of-day-order-reversed");
+                }
+                if c.inc > 1 && smallest.is_date() && largest != smallest {
+                    o.unjudged = true;
+                    o = o.class("unjudged:inc>1-date-unit-largest!=smallest");
+                }
+                let want: Result<Dur, RErr> = if largest.is_time() {
+                    let x = c.t2 - c.t1;
+                    let r = round_int(x, c.inc as i128 * smallest.ns(), m);
+                    Ok(balance_time(r, largest))
+                } else {
+                    zoned_diff_rounded(&z, c.t1, c.t2, largest, c.inc as i128, smallest, m).map(|i| to_dur(i, U::Hour))
+                };
+                let want = want.map(|d| if since { d.negated() } else { d });
+                if let Err(RErr::Type) = want {
+                    o.unjudged = true;
+                    o = o.class("unjudged:day-correction-does-not-converge");
+                }
+                let lopt = match c.largest {
+                    LargestOpt::Absent => None,
+                    LargestOpt::Auto => Some(Unit::Auto),
+                    LargestOpt::Unit(u) => Some(unit(u)),
+                };
+                let st = diff_settings(lopt, c.smallest.map(unit), Some(c.inc), Some(mode(c.mode)));
+                let got = if since { zdt.since_with_provider(&other, st, &prov) } else { zdt.until_with_provider(&other, st, &prov) };
+                if o.unjudged {
+                    return o;
+                }
+                match (&want, &got) {
+                    (Ok(w), Ok(g)) => {
+                        let wf = w.to_f64s();
+                        let gf = duration_fields(g);
+                        if !fields_eq(&gf, &wf) {
+                            return o.fail("C14/diff/mismatch", format!("{wf:?}"), format!("{gf:?}"));
+                        }
+                        // oracle-free laws
+                        let s = if since { -(c.t2 - c.t1).signum() } else { (c.t2 - c.t1).signum() } as f64;
+                        chk!(o, gf.iter().all(|v| *v == 0.0 || v.signum() == s), "C14/diff/not-sign-uniform", s, gf);
+                        // The law is stated for receivers that are the compatible resolution of their own wall
+                        // time: for a receiver in the *second* occurrence of a repeated hour the specified
+                        // algorithm measures from the first occurrence (by design of DifferenceZonedDateTime).
+                        let receiver_canonical = z.resolve(z.wall_of(c.t1), Disamb::Compatible) == Ok(c.t1);
+                        if !receiver_canonical {
+                            o = o.class("receiver-in-second-occurrence");
+                        }
+                        let exact_fields = w.f.iter().all(|v| v.abs() < (1i128 << 53));
+                        if smallest == U::Nanosecond && c.inc == 1 && !since && receiver_canonical && exact_fields {
+                            // receiver.add(result) == other, exactly
+                            match zdt.add_with_provider(g, None, &prov) {
+                                Ok(r) => chk!(o, r.epoch_nanoseconds().as_i128() == c.t2, "C14/law/add-until", c.t2, r.epoch_nanoseconds().as_i128()),
+                                Err(e) => o = o.fail("C14/law/add-until/error", c.t2.to_string(), err_str(&e)),
+                            }
+                            if largest.is_date() {
+                                // time part shorter than the longest possible local day around (bounded by 24 h + largest shift)
+                                let tns: f64 = gf[4] * 3.6e12 + gf[5] * 6e10 + gf[6] * 1e9 + gf[7] * 1e6 + gf[8] * 1e3 + gf[9];
+                                let maxshift = z.trans.iter().enumerate().map(|(i, (_, o2))| (o2 - z.offset_of_interval(i as isize - 1)).abs()).max().unwrap_or(0) as f64 * 1e9;
+                                chk!(o, tns.abs() < 8.64e13 + maxshift, "C14/diff/time-part-longer-than-a-local-day", "< local day", tns);
+                            }
+                        }
+                    }
+                    (Err(we), Err(e)) => chk!(o, e.kind() == kind_of(*we), "C14/diff/error-kind", rerr_name(*we), err_str(e)),
+                    (Ok(w), Err(e)) => {
+                        if !reported_valid(w) && e.kind() == ErrorKind::Range {
+                            o = o.class("leaves-duration-range");
+                        } else {
+                            o = o.fail("C14/diff/unexpected-error", format!("{:?}", w.to_f64s()), err_str(e));
+                        }
+                    }
+                    (Err(we), Ok(g)) => o = o.fail("C14/diff/accepted", format!("{}Error", rerr_name(*we)), format!("{:?}", duration_fields(g))),
+                }
+            }
+            Op::StartOfDay => {
+                let want = spec_start_of_day(&z, w1.day);
+                o = o.class("start-of-day").nontrivial(odd_day);
+                if odd_day {
+                    o = o.class("day-not-24h");
+                }
+                // cross-check of the oracle itself: first instant whose wall date is that day
+                if let (Some(a), Some(b)) = (want, z.start_of_day(w1.day)) {
+                    if a != b {
+                        o = o.class("midnight-repeated-or-skipped");
+                    }
+                }
+                match (want, zdt.start_of_day_with_provider(&prov)) {
+                    (Some(w), Ok(g)) => chk!(o, g.epoch_nanoseconds().as_i128() == w, "C14/start_of_day/mismatch", w, g.epoch_nanoseconds().as_i128()),
+                    (Some(w), Err(e)) => o = o.fail("C14/start_of_day/error", w.to_string(), err_str(&e)),
+                    (None, _) => o.unjudged = true,
+                }
+            }
+            Op::HoursInDay => {
+                o = o.class("hours-in-day").nontrivial(odd_day);
+                let a = spec_start_of_day(&z, w1.day);
+                let b = spec_start_of_day(&z, w1.day + 1);
+                match (a, b) {
+                    (Some(a), Some(b)) => {
+                        let len = b - a;
+                        if len % 3_600_000_000_000 != 0 || len <= 0 {
+                            o.unjudged = true;
+                            o = o.class("unjudged:fractional-hour-day");
+                            let _ = zdt.hours_in_day_with_provider(&prov);
+                            return o;
+                        }
+                        let want = len / 3_600_000_000_000;
+                        if want != 24 {
+                            o = o.class("day-not-24h");
+                        }
+                        match zdt.hours_in_day_with_provider(&prov) {
+                            Ok(g) => chk!(o, g as i128 == want, "C14/hours_in_day/mismatch", want, g),
+                            Err(e) => o = o.fail("C14/hours_in_day/error", want.to_string(), err_str(&e)),
+                        }
+                    }
+                    _ => o.unjudged = true,
+                }
+            }
+            Op::WithPlainTime => {
+                let wall = Dt { day: w1.day, ns: c.tod };
+                o = o.class("with-plain-time").nontrivial(z.instants(wall.abs_ns()).len() != 1);
+                if !wall.in_range() {
+                    return o;
+                }
+                let want = z.resolve(wall.abs_ns(), Disamb::Compatible).ok().filter(|t| instant_in_range(*t));
+                match (want, zdt.with_plain_time_and_provider(plain_time(c.tod).unwrap(), &prov)) {
+                    (Some(w), Ok(g)) => chk!(o, g.epoch_nanoseconds().as_i128() == w, "C14/with_plain_time/mismatch", w, g.epoch_nanoseconds().as_i128()),
+                    (None, Err(e)) => chk!(o, e.kind() == ErrorKind::Range, "C14/with_plain_time/error-kind", "Range", err_str(&e)),
+                    (Some(w), Err(e)) => o = o.fail("C14/with_plain_time/error", w.to_string(), err_str(&e)),
+                    (None, Ok(g)) => o = o.fail("C14/with_plain_time/accepted", "RangeError", g.epoch_nanoseconds().as_i128().to_string()),
+                }
+            }
+            Op::DateOnlyString => {
+                // "YYYY-MM-DD[Zone]" denotes the start of that local day
+                let want = spec_start_of_day(&z, w1.day).filter(|t| instant_in_range(*t));
+                o = o.class("date-only-string").nontrivial(odd_day);
+                let s = format!("{}[{}]", fmt::date_of_day(w1.day), c.zone.ident());
+                match (want, ZonedDateTime::from_str_with_provider(&s, Disambiguation::Compatible, OffsetDisambiguation::Reject, &prov)) {
+                    (Some(w), Ok(g)) => chk!(o, g.epoch_nanoseconds().as_i128() == w, "C14/date-only-string/mismatch", w, g.epoch_nanoseconds().as_i128()),
+                    (Some(w), Err(e)) => o = o.fail("C14/date-only-string/error", w.to_string(), err_str(&e)),
+                    (None, _) => o.unjudged = true,
+                }
+            }
+            Op::DurRound | Op::DurTotal | Op::DurCompare => {
+                let d = match duration_from_dur(&c.dur) {
+                    Ok(d) => d,
+                    Err(e) => return o.fail("C14/duration-construct", "valid", err_str(&e)),
+                };
+                let rel = Some(RelativeTo::ZonedDateTime(zdt.clone()));
+                let target = zoned_add(&z, c.t1, &c.dur, Overflow::Constrain);
+                let strad = target.map(|t| straddles(&z, c.t1, t)).unwrap_or(false);
+                o = o.nontrivial(strad || odd_day || c.dur.sign() < 0);
+                if strad {
+                    o = o.class("straddles-transition");
+                }
+                match c.op {
+                    Op::DurRound => {
+                        let smallest = c.smallest.unwrap_or(U::Nanosecond);
+                        let existing = c.dur.largest_unit();
+                        let largest = match c.largest {
+                            LargestOpt::Unit(u) => u,
+                            _ => existing.larger_of(smallest),
+                        };
+                        o = o.class("duration.round");
+                        if c.inc > 1 && smallest.is_date() && largest != smallest {
+                            o.unjudged = true;
+                            o = o.class("unjudged:inc>1-date-unit-largest!=smallest");
+                        }
+                        let want: Result<Dur, RErr> = target.and_then(|t2| {
+                            if largest.is_time() {
+                                let r = round_int(t2 - c.t1, c.inc as i128 * smallest.ns(), c.mode);
+                                Ok(balance_time(r, largest))
+                            } else {
+                                zoned_diff_rounded(&z, c.t1, t2, largest, c.inc as i128, smallest, c.mode).map(|i| to_dur(i, U::Hour))
+                            }
+                        });
+                        if let Err(RErr::Type) = want {
+                            o.unjudged = true;
+                            o = o.class("unjudged:day-correction-does-not-converge");
+                        }
+                        let lopt = match c.largest {
+                            LargestOpt::Absent => None,
+                            LargestOpt::Auto => Some(Unit::Auto),
+                            LargestOpt::Unit(u) => Some(unit(u)),
+                        };
+                        if lopt.is_none() && c.smallest.is_none() {
+                            return o;
+                        }
+                        let opts = round_options(lopt, c.smallest.map(unit), Some(c.inc), Some(mode(c.mode)));
+                        let got = d.round_with_provider(opts, rel, &prov);
+                        if o.unjudged {
+                            return o;
+                        }
+                        match (&want, &got) {
+                            (Ok(w), Ok(g)) => chk!(o, fields_eq(&duration_fields(g), &w.to_f64s()), "C14/duration.round/mismatch", w.to_f64s(), duration_fields(g)),
+                            (Err(we), Err(e)) => chk!(o, e.kind() == kind_of(*we), "C14/duration.round/error-kind", rerr_name(*we), err_str(e)),
+                            (Ok(w), Err(e)) => {
+                                if !reported_valid(w) && e.kind() == ErrorKind::Range {
+                                    o = o.class("leaves-duration-range");
+                                } else {
+                                    o = o.fail("C14/duration.round/unexpected-error", format!("{:?}", w.to_f64s()), err_str(e));
+                                }
+                            }
+                            (Err(we), Ok(g)) => o = o.fail("C14/duration.round/accepted", format!("{}Error", rerr_name(*we)), format!("{:?}", duration_fields(g))),
+                        }
+                    }
+                    Op::DurTotal => {
+                        let u = c.smallest.unwrap_or(U::Hour);
+                        o = o.class("duration.total");
+                        let want = target.and_then(|t2| zoned_total(&z, c.t1, t2, u));
+                        if let Err(RErr::Type) = want {
+                            o.unjudged = true;
+                            return o;
+                        }
+                        match (want, d.total_with_provider(unit(u), rel, &prov)) {
+                            (Ok((n, den)), Ok(g)) => {
+                                let w = ratio_to_f64(n, den);
+                                let ulps = ulp_distance(g.as_inner(), w);
+                                chk!(o, ulps <= 1, "C14/duration.total/mismatch", w, g.as_inner());
+                            }
+                            (Err(we), Err(e)) => chk!(o, e.kind() == kind_of(we), "C14/duration.total/error-kind", rerr_name(we), err_str(&e)),
+                            (Ok((n, den)), Err(e)) => o = o.fail("C14/duration.total/unexpected-error", format!("{:e}", ratio_to_f64(n, den)), err_str(&e)),
+                            (Err(we), Ok(g)) => o = o.fail("C14/duration.total/accepted", format!("{}Error", rerr_name(we)), format!("{:e}", g.as_inner())),
+                        }
+                    }
+                    _ => {
+                        o = o.class("duration.compare");
+                        let d2 = match duration_from_dur(&c.dur2) {
+                            Ok(d) => d,
+                            Err(e) => return o.fail("C14/duration-construct", "valid", err_str(&e)),
+                        };
+                        let any_date = c.dur.largest_unit().is_date() || c.dur2.largest_unit().is_date();
+                        let want: Result<std::cmp::Ordering, RErr> = if fields_eq(&c.dur.to_f64s(), &c.dur2.to_f64s()) {
+                            Ok(std::cmp::Ordering::Equal)
+                        } else if any_date {
+                            match (target, zoned_add(&z, c.t1, &c.dur2, Overflow::Constrain)) {
+                                (Ok(a), Ok(b)) => Ok(a.cmp(&b)),
+                                (Err(e), _) | (_, Err(e)) => Err(e),
+                            }
+                        } else {
+                            Ok(c.dur.time_ns().cmp(&c.dur2.time_ns()))
+                        };
+                        match (want, d.compare_with_provider(&d2, rel, &prov)) {
+                            (Ok(w), Ok(g)) => chk!(o, g == w, "C14/duration.compare/mismatch", w, g),
+                            (Err(we), Err(e)) => chk!(o, e.kind() == kind_of(we), "C14/duration.compare/error-kind", rerr_name(we), err_str(&e)),
+                            (Ok(w), Err(e)) => o = o.fail("C14/duration.compare/unexpected-error", format!("{w:?}"), err_str(&e)),
+                            (Err(we), Ok(g)) => o = o.fail("C14/duration.compare/accepted", format!("{}Error", rerr_name(we)), format!("{g:?}")),
+                        }
+                    }
+                }
+            }
+        }
+        let _ = near_transition(&z, c.t1, 1);
+        o
+    }
+}
+
+// ------------------------------------------------------------------------------------------
+// generators
+
+fn zone_kind() -> BoxedStrategy<ZoneKind> {
+    let shaped = shaped_zones();
+    prop_oneof![
+        1 => (-1439i32..=1439).prop_map(ZoneKind::Fixed),
+        6 => syn_zone().prop_map(ZoneKind::Table),
+        4 => proptest::sample::select(shaped).prop_map(ZoneKind::Table),
+    ]
+    .boxed()
+}
+
+fn small_dur() -> BoxedStrategy<Dur> {
+    let y = prop_oneof![6 => Just(0i128), 3 => 0i128..=2, 1 => 0i128..=50];
+    let mo = prop_oneof![5 => Just(0i128), 4 => 0i128..=13];
+    let w = prop_oneof![6 => Just(0i128), 3 => 0i128..=5];
+    let d = prop_oneof![3 => Just(0i128), 5 => 0i128..=3, 2 => 0i128..=40, 1 => 0i128..=400];
+    let h = prop_oneof![3 => Just(0i128), 5 => 0i128..=30, 1 => 0i128..=100];
+    let mi = prop_oneof![5 => Just(0i128), 3 => 0i128..=70, 1 => Just(30i128)];
+    let s = prop_oneof![6 => Just(0i128), 2 => 0i128..=70];
+    let ns = prop_oneof![6 => Just(0i128), 2 => 0i128..=1_000_000_000i128, 1 => Just(1i128)];
+    (prop::bool::ANY, (y, mo, w, d), (h, mi, s, ns))
+        .prop_map(|(neg, dd, t)| {
+            let mut f = [dd.0, dd.1, dd.2, dd.3, t.0, t.1, t.2, 0, 0, t.3];
+            if neg {
+                for x in f.iter_mut() {
+                    *x = -*x;
+                }
+            }
+            Dur { f }
+        })
+        .boxed()
+}
+
+fn opts() -> BoxedStrategy<(LargestOpt, Option<U>, u32)> {
+    (prop_oneof![2 => Just(None), 3 => gen::unit_in(0, 3).prop_map(Some), 3 => gen::unit_in(4, 9).prop_map(Some)], 0usize..64, 0u8..4, 0usize..64)
+        .prop_map(|(smallest, li, lk, ii)| {
+            let s = smallest.unwrap_or(U::Nanosecond);
+            let l = UNITS[li * (s.idx() + 1) / 64];
+            let incs: Vec<u32> = match s.max_increment() {
+                Some(m) => gen::divisors_below(m).into_iter().map(|x| x as u32).collect(),
+                None => vec![1, 1, 1, 1, 1, 1, 2, 3, 5, 10],
+            };
+            let inc = if smallest.is_none() { 1 } else { incs[ii * incs.len() / 64] };
+            let largest = match lk {
+                _ if inc > 1 && s.is_date() && lk != 0 => LargestOpt::Unit(s),
+                0 => LargestOpt::Absent,
+                1 => LargestOpt::Auto,
+                _ => LargestOpt::Unit(l),
+            };
+            (largest, smallest, inc)
+        })
+        .boxed()
+}
+
+fn case() -> BoxedStrategy<Case> {
+    (zone_kind(), (0usize..64, 0u8..8, -172_800i128..=172_800, 0i128..1_000_000_000), (0u8..8, -400_000i128..=400_000, 0i128..1_000_000_000), 0u8..16, small_dur(), small_dur(), opts(), gen::mode(), (prop::bool::ANY, gen::ns_of_day()))
+        .prop_map(|(zone, (ti, place, dsec, dns), (k2, d2sec, d2ns), opk, dur, dur2, (largest, smallest, inc), mode, (reject, tod))| {
+            let z = zone.zone();
+            let n = z.trans.len();
+            let anchor = if n == 0 { 1_500_000_000i128 * S } else { z.trans[ti * n / 64].0 as i128 * S };
+            let delta = match place {
+                0 => -1,
+                1 => 0,
+                2 => 1,
+                3 => dns,
+                4 => dsec * S / 48 + dns,
+                _ => dsec * S + dns,
+            };
+            let t1 = (anchor + delta).clamp(-MAX_INSTANT + 3 * DAY, MAX_INSTANT - 3 * DAY);
+            // second instant: near the first (both orders), a few days away, or far
+            let t2 = match k2 {
+                0 => t1 + d2ns,
+                1 => t1 - d2ns,
+                2 | 3 => t1 + d2sec * S / 4 + d2ns,
+                4 | 5 => t1 + d2sec * S + d2ns,
+                6 => t1 + d2sec * S * 300 + d2ns,
+                _ => t1 + d2sec * S * 40_000,
+            }
+            .clamp(-MAX_INSTANT + 3 * DAY, MAX_INSTANT - 3 * DAY);
+            let op = [Op::Add, Op::Add, Op::Subtract, Op::Until, Op::Until, Op::Until, Op::Since, Op::Since, Op::StartOfDay, Op::HoursInDay, Op::WithPlainTime, Op::DateOnlyString, Op::DurRound, Op::DurRound, Op::DurTotal, Op::DurCompare][opk as usize];
+            Case { zone, op, t1, t2, dur, dur2, largest, smallest, inc, mode, reject, tod }
+        })
+        .prop_filter("valid durations", |c| c.dur.valid() && c.dur2.valid())
+        .boxed()
+}
+
+pub fn run(ctx: &mut Ctx) {
+    ctx.rule = "zones as in C13 (fixed offsets, synthetic rule tables with shifts from 1 minute to 26 h, tables shaped like New York / Lord Howe / Apia / Dublin / Kolkata / Kiritimati) served through the harness provider; instants within +-2 days of a transition (edges +-1 ns) paired with a second instant 0 ns .. decades away in both orders; ops: add/subtract (date units on the wall clock re-resolved compatible, time units exact), until/since with time largest units (exact elapsed, rounded) and date largest units (reference DifferenceZonedDateTime + RoundRelativeDuration on the rule table, plus oracle-free laws: sign-uniform, receiver.add(result) == other, time part shorter than a local day), start_of_day, hours_in_day (whole-hour days; fractional-hour days executed but unjudged because the API returns an integer), with_plain_time, date-only strings, Duration round/total/compare relative to a ZonedDateTime. non-trivial = the pair straddles a transition, the local day is not 24 h, or negative direction with reversed time-of-day order.".into();
+    ctx.assumptions = vec![
+        "provider contract as in C13 (tzp.rs)".into(),
+        "rule sets for which the specification's own day-correction loop does not converge are unjudged (counted)".into(),
+    ];
+    ctx.run_prop(&Sub, &case, ctx.tier.pick(500_000, 15_000_000));
+}
+
+pub fn replay(ctx: &mut Ctx, sub: &str, case: &Value) -> bool {
+    match sub {
+        "zoned" => ctx.replay_case(&Sub, case),
+        _ => false,
+    }
 }
